@@ -540,7 +540,12 @@ func (rp *report) finish(wall time.Duration) int {
 	for _, l := range lines {
 		fmt.Println(l)
 	}
+	seenIC := map[string]bool{}
 	for _, ic := range inconclusive {
+		if seenIC[ic] {
+			continue
+		}
+		seenIC[ic] = true
 		fmt.Printf("INCONCLUSIVE property=%s %s\n", o.Property, ic)
 	}
 	verdict := map[int]string{0: "HOLDS-WITHIN-BOUNDS", 1: "VIOLATED", 2: "INCONCLUSIVE"}[exit]
